@@ -307,6 +307,12 @@ impl Stream for PutqStream {
                                 if finished {
                                     out.violation("C06", "put-never-finishes", "every request is answered or expired but the put is still pending".into());
                                 }
+                                // a majority of the contacted nodes has already answered 301 (302) while other
+                                // requests are still out: the rejection surfaces now, whatever a minority stored
+                                let half = self.sent.len() / 2 + 1;
+                                if self.mutable && !finished && (n301 >= half || n302 >= half) {
+                                    out.violation("C17", "majority-ignored", format!("{} of the {} contacted nodes answered {} and the put of a mutable item is still pending ({} acknowledgements so far)", n301.max(n302), self.sent.len(), if n301 >= half { 301 } else { 302 }, self.acks));
+                                }
                             }
                             Err(PutError::Concurrency(c)) => {
                                 let want = match c {
@@ -406,6 +412,29 @@ pub fn run(out: &mut Out, seed: u64, thorough: bool, replay: Option<&str>) {
                 out.run(&mut s, "adv 60000000000".into());
                 out.run(&mut s, "check".into());
                 out.mark_distinct(fnv(format!("maj{kind}{n}{k301}").as_bytes()));
+            }
+        }
+    }
+    // ---- an acknowledgement first, then a rejecting majority while other requests are still out
+    for code in ["301", "302"] {
+        for n in [3usize, 4, 5, 6, 8] {
+            for acks in [1usize, 2] {
+                if acks + n / 2 + 1 >= n {
+                    continue;
+                }
+                case(out, &mut s, "mut", 0, 0, None);
+                out.run(&mut s, format!("start {n} 0"));
+                for i in 0..acks {
+                    out.run(&mut s, format!("reply {i} ok"));
+                    out.run(&mut s, "check".into());
+                }
+                for i in acks..(acks + n / 2 + 1) {
+                    out.run(&mut s, format!("reply {i} {code}"));
+                    out.run(&mut s, "check".into());
+                }
+                out.run(&mut s, "adv 60000000000".into());
+                out.run(&mut s, "check".into());
+                out.mark_distinct(fnv(format!("ackfirst{code}{n}{acks}").as_bytes()));
             }
         }
     }
